@@ -8,6 +8,7 @@ import (
 	"encoding/xml"
 	"fmt"
 	"math/big"
+	"regexp"
 	"strings"
 	"sync"
 
@@ -144,9 +145,19 @@ func c11Advertised(w *World) []string {
 	return out
 }
 
-func c11Combos(algs []string) []c11combo {
+var c11DigestRe = regexp.MustCompile(`^https?://www\.w3\.org/.*#(sha|md5|SHA|MD5)[0-9a-zA-Z-]*$`)
+
+func c11Combos(algs []string, fromSource bool) []c11combo {
 	var out []c11combo
 	digs := []*string{nil, sim.S(""), sim.S(sim.DigSHA1), sim.S(sim.DigSHA256), sim.S(sim.DigSHA512)}
+	// plus every digest identifier the library's own source spells out (constants it exports, tables it consults)
+	seen := map[string]bool{sim.DigSHA1: true, sim.DigSHA256: true, sim.DigSHA512: true}
+	for _, lit := range DictAll() {
+		if fromSource && c11DigestRe.MatchString(lit) && !seen[lit] {
+			seen[lit] = true
+			digs = append(digs, sim.S(lit))
+		}
+	}
 	for _, d := range algs {
 		for _, k := range []string{sim.RSAOAEP, sim.RSAOAEP11} {
 			for _, g := range digs {
@@ -179,7 +190,8 @@ func runC11(c *mon.Ctx) {
 		}
 		return
 	}
-	combos := c11Combos(usable)
+	combos := c11Combos(usable, false)
+	directCombos := c11Combos(usable, true) // the direct round trips also try every digest identifier found in the source
 	tlsCert := &tls.Certificate{Certificate: [][]byte{w.SPEnc.DER}, PrivateKey: w.SPEnc.Key.RSA()}
 
 	// ---- direct round trips ----
@@ -190,8 +202,8 @@ func runC11(c *mon.Ctx) {
 			continue
 		}
 		r := cs.Rand()
-		co := combos[k%len(combos)]
-		plen := (k / len(combos)) % 49
+		co := directCombos[k%len(directCombos)]
+		plen := (k / len(directCombos)) % 49
 		pt := make([]byte, plen)
 		kind := r.IntN(5)
 		switch kind {
@@ -237,9 +249,11 @@ func runC11(c *mon.Ctx) {
 		case pv != nil:
 			cs.Outcome("panic")
 			cs.Violation("panic:DecryptBytes", "DecryptBytes panicked: %v\n%s", pv, trunc(stack, 1200))
+		case derr != nil && co.digest != nil && *co.digest != "" && *co.digest != sim.DigSHA1 && *co.digest != sim.DigSHA256 && *co.digest != sim.DigSHA512 && strings.Contains(derr.Error(), "unsupported digest"):
+			cs.Outcome("mentioned-digest-not-supported") // an identifier the source merely mentions: refusing it by name is fine
 		case derr != nil:
 			cs.Outcome("error")
-			cs.Violation("roundtrip-error:"+short, "decrypting harness ciphertext failed: %v", derr)
+			cs.Violation("roundtrip-error:"+short, "decrypting harness ciphertext failed (digest %q): %v", strOrAbsent(co.digest), derr)
 		case !bytes.Equal(got, pt):
 			cs.Outcome("mismatch")
 			cs.Violation("roundtrip-mismatch:"+short, "plaintext differs: want %x got %x", pt, got)
@@ -351,6 +365,10 @@ func runC11(c *mon.Ctx) {
 			// the plaintext is the assertion's octets as they stand in the twin (prefixes declared on the Response
 			// are not declared again), as XML-Enc's "parse in the context of the parent" allows
 			a.Enc.InContext = inContext
+			if !inContext {
+				// what a serialiser may put in front of the element it writes out before encrypting it
+				a.Enc.PlainPrefix = pick(r, []string{"", "", "", "\xef\xbb\xbf", "<?xml version=\"1.0\" encoding=\"UTF-8\"?>", "\n  ", "\xef\xbb\xbf<?xml version=\"1.0\"?>\n", "<!-- encrypted for the SP -->"})
+			}
 		}
 		encXML, err := sim.BuildResponse(g.Rec, st)
 		if err != nil {
